@@ -436,6 +436,34 @@ def run(prog, check):
     icf = _flatten(prog, solver_function(prog, 'initial_conditions'))
     check.saw(icf)
     k0_protection(check, icf, cfgmod.build(icf), rule='C03.R5')
+    # every variable of a partition gets its turn in the k=0 passes: the loops over the parser's partitions in the initial-conditions
+    # function are never left by `break` (a variable set aside by the reduction sits in the Decoration partition: cutting that
+    # pass short leaves the ones listed later at 0.0 at k=0, while the unreduced system computes them)
+    for lp_ in [x_ for x_ in ast.walk(icf.node) if isinstance(x_, ast.For) and isinstance(x_.iter, ast.Attribute) and
+                x_.iter.attr in ('Decoration', 'Endogenous', 'Exogenous', 'Lagged')]:
+        def own_breaks(stmts):
+            out = []
+            for s_ in stmts:
+                if isinstance(s_, ast.Break):
+                    out.append(s_)
+                elif isinstance(s_, (ast.For, ast.While, ast.FunctionDef, ast.ClassDef)):
+                    continue
+                else:
+                    for fld in ('body', 'orelse', 'finalbody'):
+                        out += own_breaks(getattr(s_, fld, None) or [])
+                    for h_ in getattr(s_, 'handlers', []) or []:
+                        out += own_breaks(h_.body)
+            return out
+        brk = own_breaks(lp_.body)
+        # a loop that only searches (sets a flag and leaves) may stop early; one that evaluates / stores per entry may not
+        works = any((isinstance(x_, ast.Assign) and any(isinstance(t_, ast.Subscript) for t_ in x_.targets)) or
+                    (isinstance(x_, ast.Call) and call_name(x_) in ('eval', 'append', 'AppendValue')) for x_ in ast.walk(lp_))
+        if not works:
+            brk = []
+        check.ob('C03.R5', '%s::k0-pass-visits-all(%s)' % (icf.key, lp_.iter.attr), not brk, '%s:%d' % (icf.module.rel, (brk[0] if brk else lp_).lineno),
+                 'the pass over %s visits every entry' % lp_.iter.attr if not brk else
+                 'the k=0 pass over %s is left by `break`: the entries listed after that point keep 0.0 at k=0' % lp_.iter.attr,
+                 'a decorative alias listed after a decorative variable that has an initial condition, reduction on vs off')
     # the optional steady-state start treats the variables set aside like the solved ones
     from ._common import steady_state_covers_all_series, steady_state_loop
     ssf_, loop_, subst_ = steady_state_loop(prog)
@@ -443,6 +471,15 @@ def run(prog, check):
     ok_c, why_c = steady_state_covers_all_series(loop_, subst_)
     check.ob('C03.R5', '%s::steady-start-covers-set-aside-variables' % ssf_.key, ok_c, '%s:%d' % (ssf_.module.rel, loop_.lineno), why_c,
              'ParameterSolveInitialSteadyState with reduction on and off: a decorative variable must start from the same k=0 value')
+    # the substitution step renames whole name tokens only: the clause of C13 for the token-level renamer the reduction calls
+    from ..report import Borrowed
+    from . import C13 as _c13
+    renamers_ = {call_name(c) for c in ast.walk(flatten(prog, alias_pass).node) if isinstance(c, ast.Call) and (call_name(c) or '').startswith('replace_token')}
+    b13 = Borrowed(check, lambda rule, key: rule == 'C13.R1' and any(('::%s::' % r_) in key for r_ in renamers_), 'C03.R2',
+                   'alias x = y while another variable is called x_1 / xx: only x may be renamed')
+    _c13.run(prog, b13)
+    if not b13.n:
+        raise AnalysisError('the token-level renamer used by the reduction was not found among the renamers C13 judges (%s)' % sorted(renamers_))
     check.floor('C03.R5', 2)
     check.floor('C03.R1', 5)
     check.floor('C03.R2', 8)
